@@ -41,6 +41,7 @@ def run(tier):
     _d_crossing(chk)
     _d_refinement(chk)
     _bc_interface(chk)
+    _c_service_section(chk)
     return chk
 
 
@@ -99,6 +100,7 @@ def _a_engine(chk):
     mod, cls = ri.find_def(CE, "_CenterManifoldEngine")
     seeds = [tuple(sp.Symbol(f"s{i}_{k}") for k in range(4)) for i in range(5)]
     results = {}
+    off_section = []
     for nw in (1, 2, 3):
         calls = {"run": 0}
 
@@ -108,6 +110,8 @@ def _a_engine(chk):
             rows = []
             times = []
             for r in range(sd.shape[0]):
+                if str(sd[r, 0]).startswith("F(") and sd[r, 2] != 0:
+                    off_section.append(tuple(str(x) for x in sd[r]))
                 # deterministic row-wise successor; one seed dies after the first iteration
                 tag = str(sd[r, 0])
                 if tag.startswith("F(F(s3"):
@@ -158,6 +162,10 @@ def _a_engine(chk):
     # section coordinate of every returned row is zero (q3 -> column 2)
     nz = [r for r in results[1] if r[0][2] != "0"]
     chk.check(not nz, "C14.b", f"{CE}::_CenterManifoldEngine.solve[on section]", f"returned states have a non-zero section coordinate: {nz[:2]}", sample="column of the section coordinate is 0 in every row")
+    # an iterate that is fed back as the next seed lies exactly on the section (the strict sign test of the crossing detector
+    # otherwise sees the refinement residual as an immediate "return")
+    chk.check(not off_section, "C14.b", f"{CE}::_CenterManifoldEngine.solve[fed back on section]",
+              f"iterates are fed back to the backend with a non-zero section coordinate: {off_section[:1]}", sample="seeds of iteration k+1 = enforce_section_coordinate(states of iteration k)")
     # _worker and backend.run write no attribute of self / shared objects
     wfn = next(f for f in ast.walk(cls) if isinstance(f, ast.FunctionDef) and f.name == "_worker")
     stores = [ast.unparse(n) for n in ast.walk(wfn) if isinstance(n, ast.Attribute) and isinstance(n.ctx, ast.Store)]
@@ -174,6 +182,43 @@ def _a_engine(chk):
                              {k.arg: ast.unparse(k.value) for k in c.keywords}.get("section_coord") in ("section_coord", "problem.section_coord") for c in lifts)
     chk.check(ok, "C14.e", f"{CE}::_CenterManifoldEngine.solve[seed lift]", "seeds are not lifted with lift_plane_point on the problem's energy and section coordinate",
               sample="lift_plane_point(p, section_coord=section_coord, h0=problem.energy, ...)")
+
+
+def _c_service_section(chk):
+    """The map service computes the section that was asked for, whatever was computed before on the same object: the
+    generator is a model object that remembers its configured section; the request is made when the generator is still
+    configured for another section (and the service-level default names the requested one)."""
+    MS = "hiten.algorithms.types.services.maps"
+    mod, cls = ri.find_def(MS, "_CenterManifoldMapDynamicsService")
+    for requested, gen_state, default in (("q3", "p2", "q3"), ("p3", "q3", "q3"), ("q3", "q3", "q3")):
+        log = []
+
+        class Gen(KModel):
+            def __init__(self):
+                self.section = gen_state
+
+            def update_config(self, **kw):
+                if "section_coord" in kw:
+                    self.section = kw["section_coord"]
+
+            def generate(self, dom, options):
+                log.append(self.section)
+                return SymObj(None, {"points": sp.Symbol("PTS"), "states": sp.Symbol("STS"), "times": sp.Symbol("TMS"), "labels": sp.Symbol("LBL")}, "result")
+
+        gen = Gen()
+        svc = SymObj(ClassRef(mod, cls), {"generator": gen, "map_config": SymObj(None, {"section_coord": default}, "map_config"), "domain_obj": sp.Symbol("DOM"),
+                                          "map_options": SymObj(None, {"to_dict": lambda: {}}, "options"), "make_key": lambda *a: ("key",) + tuple(str(x) for x in a),
+                                          "get_or_create": lambda key, factory: ip.apply(factory, [], {}), "apply_center_manifold_map": lambda payload, **kw: None}, "svc")
+        ip = Interp(overrides={"_from_mapping": lambda ip_, a, k: SymObj(None, dict(a[-1]), "payload"),
+                               "CenterManifoldMapResults": lambda ip_, a, k: SymObj(None, {"args": a}, "results")})
+        try:
+            ip.apply(ip.getattr(svc, "compute"), [], {"section_coord": requested})
+        except OutsideFragment as exc:
+            raise AnalysisError(f"maps service compute outside fragment: {exc}")
+        chk.check(log == [requested], "C14.c", f"{MS}::_CenterManifoldMapDynamicsService.compute[request {requested} after {gen_state}]",
+                  f"a map for section {requested} is generated while the generator is configured for {log} (previous section {gen_state}, service default {default})",
+                  sample=f"request {requested} with the generator left at {gen_state}: generate() runs configured for {requested}")
+    chk.count("functions partially evaluated", 3)
 
 
 # ------------------------------------------------------------------------------------------------ slots (shared with C09.b)
